@@ -173,4 +173,258 @@ theorem portionOk_cols (a0 : AttrRow) :
     rw [this, contains_map_str]
 end
 
+theorem withPortionCols_traceIds (d : TraceDb) (hash : Bytes → Nat) (idText : Bytes → String) (n : Nat) :
+    (d.withPortionCols hash idText n).attrs.map (·.traceId) = d.attrs.map (·.traceId) := by
+  simp [TraceDb.withPortionCols, List.map_map, Function.comp_def]
+
+/-- **what a portion statement sees**: behind its portion filter, the index (with the computed columns) restricted to the
+    traces of portion `i` of `n` and the cached ones -/
+theorem seen_portion (o : Oracles) (c : Ctx) (d : TraceDb) (hash : Bytes → Nat) (idText : Bytes → String)
+    (hinj : ∀ a b, idText a = idText b → a = b) (n i : Nat) (hn : 0 < n) (cachedIds : List Bytes)
+    (hsub : ∀ t ∈ cachedIds, d.traceIds.contains t = true) :
+    (d.withPortionCols hash idText n).seen o (portionCtx c n i (cachedIds.map idText)) =
+      (d.withPortionCols hash idText n).portion hash n i cachedIds := by
+  unfold TraceDb.seen TraceDb.portion
+  congr 1
+  apply List.filter_congr
+  intro a ha
+  simp only [TraceDb.withPortionCols, List.mem_map] at ha
+  obtain ⟨a0, _, rfl⟩ := ha
+  exact portionOk_cols o c hash idText hinj n i hn d.traceIds cachedIds hsub a0
+
+/-! ### merging portions -/
+theorem nodup_eq_length_subset {α} [DecidableEq α] (A B : List α) (hA : A.Nodup) (hlen : B.length ≤ A.length)
+    (hsub : ∀ x ∈ A, x ∈ B) : ∀ x ∈ B, x ∈ A := by
+  intro b hb
+  by_cases hba : b ∈ A
+  · exact hba
+  · exfalso
+    have : A.length ≤ (B.erase b).length := nodup_subset_length A (B.erase b) hA (by
+      intro x hx
+      have hxb : x ≠ b := fun h => hba (h ▸ hx)
+      exact (List.mem_erase_of_ne hxb).mpr (hsub x hx))
+    rw [List.length_erase_of_mem hb] at this
+    have := List.length_pos_of_mem hb
+    omega
+
+/-- **one step of the merge**: `K` is a choice of the `n` most recent among `P`; `K'` a choice of the `n` most recent
+    among the new candidates `Q` together with `K`: then `K'` is a choice of the `n` most recent among `P ∪ Q` -/
+theorem topN_merge (rec : Bytes → Int) (P Q : Bytes → Prop) (n : Nat) (K K' : List Bytes)
+    (hK : IsTopN rec P n K) (hK' : IsTopN rec (fun t => Q t ∨ t ∈ K) n K') :
+    IsTopN rec (fun t => P t ∨ Q t) n K' := by
+  refine ⟨hK'.nodup, ?_, hK'.atMost, ?_, hK'.sorted⟩
+  · intro k hk
+    rcases hK'.sound k hk with h | h
+    · exact Or.inr h
+    · exact Or.inl (hK.sound k h)
+  · intro m hm hmK'
+    -- a candidate of the last round that was left out: the round's own guarantee
+    have cand : (Q m ∨ m ∈ K) → K'.length = n ∧ ∀ k ∈ K', rec m ≤ rec k := fun h => hK'.most m h hmK'
+    rcases hm with hP | hQ
+    · by_cases hmK : m ∈ K
+      · exact cand (Or.inr hmK)
+      · obtain ⟨hfull, hle⟩ := hK.most m hP hmK
+        -- `K` is full, all of it were candidates: `K'` is full too
+        have hK'full : K'.length = n := by
+          by_cases hall : ∀ k ∈ K, k ∈ K'
+          · have := nodup_subset_length K K' hK.nodup hall
+            have := hK'.atMost
+            omega
+          · have : ∃ k, k ∈ K ∧ k ∉ K' := by
+              by_cases h : ∃ k, k ∈ K ∧ k ∉ K'
+              · exact h
+              · exfalso; apply hall; intro k hk
+                by_cases hk' : k ∈ K'
+                · exact hk'
+                · exact absurd ⟨k, hk, hk'⟩ h
+            obtain ⟨k, hk, hk'⟩ := this
+            exact (hK'.most k (Or.inr hk) hk').1
+        refine ⟨hK'full, ?_⟩
+        intro k' hk'
+        by_cases hk'K : k' ∈ K
+        · exact hle k' hk'K
+        · -- `k'` came in for a member `r` of `K` that went out: `rec m ≤ rec r ≤ rec k'`
+          have : ∃ r, r ∈ K ∧ r ∉ K' := by
+            by_cases h : ∃ r, r ∈ K ∧ r ∉ K'
+            · exact h
+            · exfalso
+              have hall : ∀ r ∈ K, r ∈ K' := by
+                intro r hr
+                by_cases hr' : r ∈ K'
+                · exact hr'
+                · exact absurd ⟨r, hr, hr'⟩ h
+              exact hk'K (nodup_eq_length_subset K K' hK.nodup (by omega) hall k' hk')
+          obtain ⟨r, hr, hr'⟩ := this
+          exact Int.le_trans (hle r hr) ((hK'.most r (Or.inr hr) hr').2 k' hk')
+    · exact cand (Or.inl hQ)
+
+/-! ### what a script says of a trace depends on the index rows of that trace -/
+/-- the index restricted to the traces satisfying `φ` -/
+def TraceDb.restrict (d : TraceDb) (φ : Bytes → Bool) : TraceDb := { d with attrs := d.attrs.filter (fun a => φ a.traceId) }
+
+theorem dedup_filter {α} [BEq α] [LawfulBEq α] (p : α → Bool) : ∀ l : List α, dedup (l.filter p) = (dedup l).filter p
+  | [] => rfl
+  | x :: xs => by
+    by_cases hp : p x = true
+    · simp only [List.filter_cons, hp, if_true, dedup, dedup_filter p xs, List.filter_filter]
+      congr 1
+      apply List.filter_congr
+      intro y _
+      rw [Bool.and_comm]
+    · simp only [Bool.not_eq_true] at hp
+      simp only [List.filter_cons, hp, Bool.false_eq_true, if_false, dedup, dedup_filter p xs, List.filter_filter]
+      apply List.filter_congr
+      intro y hy
+      by_cases hyx : y = x
+      · subst hyx; simp [hp]
+      · simp [hyx]
+
+section
+variable (o : Oracles) (ao : AggOracles) (c : Ctx) (d : TraceDb) (φ : Bytes → Bool)
+
+theorem spanTerm_restrict (k : SpanKey) (hk : φ k.1 = true) (t : Term) :
+    spanTerm o c (d.restrict φ) k t = spanTerm o c d k t := by
+  simp only [spanTerm, TraceDb.restrict, List.any_filter]
+  apply any_congr_mem
+  intro a _
+  by_cases h : a.span = k
+  · have : φ a.traceId = true := by rw [← h] at hk; exact hk
+    simp [this]
+  · have : (a.span == k) = false := by rw [beq_eq_false_iff_ne]; exact h
+    simp [this]
+
+theorem spanHolds_restrict (e : AttrExp) (k : SpanKey) (hk : φ k.1 = true) :
+    spanHolds o c (d.restrict φ) e k = spanHolds o c d e k := by
+  unfold spanHolds
+  have : spanTerm o c (d.restrict φ) k = spanTerm o c d k := funext (spanTerm_restrict o c d φ k hk)
+  rw [this]
+
+theorem spans_restrict : spans c (d.restrict φ) = (spans c d).filter (fun k => φ k.1) := by
+  simp only [spans, TraceDb.restrict, List.filter_filter]
+  rw [← dedup_filter, List.filter_map]
+  congr 2
+  rw [List.filter_filter]
+  apply List.filter_congr
+  intro a _
+  simp [AttrRow.span, Function.comp, Bool.and_comm]
+
+theorem matchedSpans_restrict (e : AttrExp) (tr : Bytes) (htr : φ tr = true) :
+    matchedSpans o c (d.restrict φ) e tr = matchedSpans o c d e tr := by
+  simp only [matchedSpans, spans_restrict, List.filter_filter]
+  apply List.filter_congr
+  intro k _
+  by_cases hk : k.1 = tr
+  · have hφ : φ k.1 = true := by rw [hk]; exact htr
+    simp [hk, htr, spanHolds_restrict o c d φ e k hφ]
+  · have : (k.1 == tr) = false := by rw [beq_eq_false_iff_ne]; exact hk
+    simp [this]
+
+theorem find_restrict (k : SpanKey) (hk : φ k.1 = true) (p : AttrRow → Bool) :
+    (d.restrict φ).attrs.find? (fun a => a.span == k && p a) = d.attrs.find? (fun a => a.span == k && p a) := by
+  simp only [TraceDb.restrict, List.find?_filter]
+  congr 1
+  funext a
+  by_cases h : a.span = k
+  · have : φ a.traceId = true := by rw [← h] at hk; exact hk
+    simp [this, h]
+  · have : (a.span == k) = false := by rw [beq_eq_false_iff_ne]; exact h
+    simp [this, h]
+
+theorem aggValue_restrict (attr : String) (k : SpanKey) (hk : φ k.1 = true) :
+    aggValue o c (d.restrict φ) attr k = aggValue o c d attr k := by
+  unfold aggValue
+  split
+  · rw [find_restrict d φ k hk (fun a => admissible c a)]
+  · have := find_restrict d φ k hk (fun a => admissible c a && a.key == (aggAttrKey attr).toUTF8.toList && o.isNum a.val)
+    simp only [← Bool.and_assoc] at this ⊢
+    rw [this]
+
+theorem spanTs_restrict (k : SpanKey) (hk : φ k.1 = true) : spanTs c (d.restrict φ) k = spanTs c d k := by
+  unfold spanTs
+  rw [find_restrict d φ k hk (fun a => admissible c a)]
+
+theorem selMatches_restrict (s : Selector) (tr : Bytes) (htr : φ tr = true) :
+    selMatches o ao c (d.restrict φ) s tr = selMatches o ao c d s tr := by
+  unfold selMatches
+  cases s.attrs with
+  | none => rfl
+  | some e =>
+    simp only [matchedSpans_restrict o c d φ e tr htr]
+    congr 1
+    cases s.agg with
+    | none => rfl
+    | some a =>
+      simp only
+      cases aggCmpText a with
+      | error _ => rfl
+      | ok lit =>
+        simp only
+        unfold aggHolds
+        cases cmpName a.cmp with
+        | none => rfl
+        | some f =>
+          simp only
+          cases a.fn <;> simp only
+          all_goals
+            congr 1
+            apply filterMap_congr_mem
+            intro k hk
+            have hk1 : k.1 = tr := by
+              simp only [matchedSpans, List.mem_filter, Bool.and_eq_true, beq_iff_eq] at hk
+              exact hk.2.1
+            exact aggValue_restrict o c d φ a.attr k (by rw [hk1]; exact htr)
+
+theorem traceMatches_restrict (script : Script) (tr : Bytes) (htr : φ tr = true) :
+    traceMatches o ao c (d.restrict φ) script tr = traceMatches o ao c d script tr := by
+  unfold traceMatches
+  have : (fun s => selMatches o ao c (d.restrict φ) s tr) = fun s => selMatches o ao c d s tr :=
+    funext (fun s => selMatches_restrict o ao c d φ s tr htr)
+  rw [this]
+
+theorem scriptL_restrict {α} (leaf leaf' : Selector → Bytes → List α) (script : Script) (tr : Bytes) (htr : φ tr = true)
+    (hl : ∀ s, leaf s tr = leaf' s tr) :
+    scriptL (fun s tr => selMatches o ao c (d.restrict φ) s tr) leaf script tr =
+      scriptL (fun s tr => selMatches o ao c d s tr) leaf' script tr := by
+  unfold scriptL
+  have : (fun s => selMatches o ao c (d.restrict φ) s tr) = fun s => selMatches o ao c d s tr :=
+    funext (fun s => selMatches_restrict o ao c d φ s tr htr)
+  rw [this]
+  congr 1
+  funext s
+  exact hl s
+
+theorem selTs_restrict (s : Selector) (tr : Bytes) (htr : φ tr = true) : selTs o c (d.restrict φ) s tr = selTs o c d s tr := by
+  unfold selTs
+  cases s.attrs with
+  | none => rfl
+  | some e =>
+    simp only [matchedSpans_restrict o c d φ e tr htr]
+    apply List.map_congr_left
+    intro k hk
+    have hk1 : k.1 = tr := by
+      simp only [matchedSpans, List.mem_filter, Bool.and_eq_true, beq_iff_eq] at hk
+      exact hk.2.1
+    exact spanTs_restrict c d φ k (by rw [hk1]; exact htr)
+
+theorem selSpans_restrict (s : Selector) (tr : Bytes) (htr : φ tr = true) : selSpans o c (d.restrict φ) s tr = selSpans o c d s tr := by
+  unfold selSpans
+  cases s.attrs with
+  | none => rfl
+  | some e => simp only [matchedSpans_restrict o c d φ e tr htr]
+
+theorem traceRec_restrict (script : Script) (tr : Bytes) (htr : φ tr = true) :
+    traceRec o ao c (d.restrict φ) script tr = traceRec o ao c d script tr := by
+  unfold traceRec
+  have := scriptL_restrict o ao c d φ (selTs o c (d.restrict φ)) (selTs o c d) script tr htr (fun s => selTs_restrict o c d φ s tr htr)
+  unfold scriptL at this
+  rw [this]
+
+theorem traceSpans_restrict (script : Script) (tr : Bytes) (htr : φ tr = true) :
+    traceSpans o ao c (d.restrict φ) script tr = traceSpans o ao c d script tr := by
+  unfold traceSpans
+  have := scriptL_restrict o ao c d φ (selSpans o c (d.restrict φ)) (selSpans o c d) script tr htr (fun s => selSpans_restrict o c d φ s tr htr)
+  unfold scriptL at this
+  exact this
+end
+
 end Qryn.TraceQL
